@@ -2,6 +2,7 @@ import ZnVerif.Properties.C18
 import ZnVerif.Properties.C18Chain
 import ZnVerif.Properties.C18Lines
 import ZnVerif.Properties.C05
+import ZnVerif.Properties.C09Sites
 open ZnVerif.Properties.C18
 #print axioms statement_sets_line
 #print axioms push_keeps_call_sites
@@ -41,3 +42,8 @@ open ZnVerif.Properties.C18
 #print axioms ZnVerif.Properties.C05.caret_under_offender
 #print axioms ZnVerif.Properties.C05.leftover_error_at_first_leftover_token
 #print axioms ZnVerif.Properties.C05.overindented_line_after_fix
+
+-- regenerated tie: where the Go evaluator pushes / pops frames, opens / closes scopes, stamps lines, reads / writes the return slot
+-- (Generated/FrameSites.lean, extracted from $ZN_REPO on every run) = the sites the models mirror (Properties/C09Sites.lean)
+#print axioms ZnVerif.Properties.C09Sites.frame_sites_all_modelled
+#print axioms ZnVerif.Properties.C09Sites.frame_primitives_all_modelled
